@@ -76,6 +76,10 @@ def build(top, ctx):
         sk = dict(jobs_window=node['window'], timeout=node['timeout'],
                   shutdown_timeout=node['sd_timeout'],
                   verbose=node['verbose'])
+        if node.get('watch'):
+            from .lib import asynciojobs
+            sk['watch'] = asynciojobs.Watch() if node['watch'] == 'default' \
+                else asynciojobs.Watch(show_elapsed=False)
         late = None
         if node.get('late_attrs'):
             # the documented attributes assigned after construction
@@ -119,6 +123,8 @@ def build(top, ctx):
             for i, obj in enumerate(objs):
                 if i % 2:
                     sched.add(obj)
+                elif i % 4 == 0:
+                    sched.update([obj, None, obj])      # twice: once is enough
                 else:
                     sched.update([obj])
         else:                                           # scheduler_kw
